@@ -13,6 +13,7 @@ import (
 	"github.com/miekg/dns"
 	"github.com/semihalev/sdns/internal/verif/vlib"
 	"github.com/semihalev/sdns/middleware"
+	"github.com/semihalev/sdns/middleware/resolver"
 )
 
 type l3Case struct {
@@ -164,6 +165,16 @@ func l3Query(f []string) vlib.Res {
 	}
 	if v != "" {
 		return vlib.Res{Impl: replyBrief(r), Oracle: v, Tags: tags}
+	}
+	// the depth caps, seen from outside: a DNAME chain spends at most maxDnameDepth target
+	// lookups, a referral chain is followed through at most Maxdepth servers
+	if c.fam == "dname" && r.Snap != nil && int(r.Snap.InternalQueries) > resolver.VerifC12MaxDnameDepth()+2 {
+		return vlib.Res{Impl: replyBrief(r), Oracle: fmt.Sprintf("FAIL sig=l3/query/dname-chain-past-depth-cap sub-queries=%d cap=%d",
+			r.Snap.InternalQueries, resolver.VerifC12MaxDnameDepth()), Tags: tags}
+	}
+	if c.fam == "deep" && c.topo.Answerable && r.Touched > c.main.P.Cfg.Maxdepth {
+		return vlib.Res{Impl: replyBrief(r), Oracle: fmt.Sprintf("FAIL sig=l3/query/referral-chain-past-maxdepth servers=%d maxdepth=%d",
+			r.Touched, c.main.P.Cfg.Maxdepth), Tags: tags}
 	}
 	if c.ref != nil {
 		// shadow: only counted, the reply is what firewall-off gives on the same world
